@@ -37,7 +37,11 @@ def gen(seed, tier="quick"):
     g = Gen(r, names=("a",), sizes=(1, 2, 3, 4), allow_sym=False, max_tokens=1)
 
     def arr(dims):
-        return g.add_ann({"k": "arr", "dtype": "Float", "atype": "np", "dims": dims, "toks": []})
+        spec = {"k": "arr", "dtype": "Float", "atype": "np", "dims": dims, "toks": []}
+        if r.random() < 0.25:
+            # nested spelling Outer[Inner[T, <tail>], <head>]: the '?' may then sit in the inner annotation only
+            spec["split"] = [r.randrange(0, len(dims.split(" ")) + 1), r.choice(("shaped", "same"))]
+        return g.add_ann(spec)
 
     q1, q2, q3, q4, q5 = arr("?n"), arr("?n a"), arr("*?v"), arr("#?n"), arr("#*?v")
     plain_n, plain_v = arr("n"), arr("*v")
